@@ -26,16 +26,22 @@ PROPS = {
     ),
     "C03": dict(
         harnesses=[
+            # thorough tier: one stateful harness decided by three solvers; the explorations must agree
+            dict(run=B + "VerifC03Get", name="C03Get_" + sv.replace("-", ""), thorough=dict(ops=2, keys=2), tiers=["thorough"], validate=0,
+                 **({"solver": sv} if sv != "z3" else {}))
+            for sv in ("z3", "z3-new", "cvc5")
+        ] + [
             dict(run=B + "VerifC03Get", quick=dict(ops=2, keys=2), thorough=dict(ops=3, keys=2), covers=["get-present", "get-absent", "update-ok", "delete-ok", "create-refused", "done"]),
             dict(run=B + "VerifC03List", quick=dict(ops=2, keys=2), thorough=dict(ops=2, keys=3), covers=["list-cut", "list-multi", "done"]),
+            dict(run=B + "VerifC03SymKeys", quick=dict(ops=1, val9=0), thorough=dict(ops=2, val9=0), covers=["one-name-prefix-of-the-other", "get-present", "done"]),
             dict(run=B + "VerifC03Again", quick=dict(ops=1, keys=2), thorough=dict(ops=2, keys=2), covers=["done"]),
             dict(run=B + "VerifC03Count", quick=dict(ops=2, keys=2), thorough=dict(ops=3, keys=2), covers=["done"]),
             dict(run=B + "VerifInductiveStep", name="C03_inductive", quick=dict(val9=0, maxversions=2, stepkind=0), thorough=dict(val9=0, maxversions=3, stepkind=0),
                  covers=["get-present", "get-absent", "compacted", "done"]),
         ],
-        bounds=dict(quick="histories of 2 symbolic writes (+1 further write) over 2 prefix-related names; values of 1 or 9 symbolic bytes; expected revisions unconstrained 64-bit; read revision symbolic in [first, committed] or 0; 5 ranges; limits 0..n+1; revision base 5; reads at every revision from the floor up after one arbitrary step from an arbitrary invariant-satisfying state of one key (0..2 versions)",
-                    thorough="histories of 3 writes over 2 names (get, count), 2 writes over 3 names (list), 2 writes + 1 further write (re-read); the inductive step over 0..3 versions"),
-        outside="reads below the compaction floor (C08); engines' own snapshot isolation (C11); keys outside the name set",
+        bounds=dict(quick="histories of 2 symbolic writes (+1 further write) over 2 prefix-related names; values of 1 or 9 symbolic bytes; expected revisions unconstrained 64-bit; read revision symbolic in [first, committed] or 0; 5 ranges; limits 0..n+1; revision base 5; the same reads after 1 write on two keys whose names are symbolic (1 and 2 bytes over the alphabet: equal, prefix-related, on either side of every range bound); reads at every revision from the floor up after one arbitrary step from an arbitrary invariant-satisfying state of one key (0..2 versions)",
+                    thorough="histories of 3 writes over 2 names (get, count), 2 writes over 3 names (list), 2 writes + 1 further write (re-read); the inductive step over 0..3 versions; one stateful harness (point reads after 2-write histories) decided by z3 4.8.12, z3 5.1 and cvc5 — the three explorations must agree"),
+        outside="reads below the compaction floor (C08); engines' own snapshot isolation (C11); key names other than the fixed prefix-related set and the two symbolic names (1 and 2 arbitrary bytes of the alphabet under the prefix)",
         assumptions=["storage engine honours the documented KvStorage contract (model store zzmodel.Store; adapters checked in C11)"],
     ),
     "C01": dict(
